@@ -258,3 +258,26 @@ pub fn c18_password_keys_match_printed_keys_len2() {
 pub fn c18_password_keys_match_printed_keys_empty() {
     password_keys_match(0)
 }
+
+/// ... also on the tick on which this side emits a key-rotation message (every_second returns early with a Reply
+/// there): the replay-window tick must not be skipped. Rotation state: an unconfirmed own proposal that is re-sent.
+#[cfg_attr(kani, kani::proof, kani::unwind(34))]
+pub fn c03_peercrypto_tick_on_rotation_tick() {
+    let seen: [u8; 12] = kani::any();
+    kani::assume(nonce_val(&seen) < (1u128 << 96) - 1);
+    let mut core = corev::outsider_core();
+    corev::set_seen(&mut core, 0, seen);
+    let rot = crate::crypto::rotate::verif::resending_state();
+    let mut pc: PeerCrypto<NoPayload> =
+        PeerCrypto { node_id: [1; 16], init: None, rotation: Some(rot), unencrypted: false, core: Some(core), rotate_counter: ROTATE_INTERVAL - 1 };
+    let mut out = MsgBuffer::new(100);
+    let r = okf(pc.every_second(&mut out));
+    // a rotation message goes out on this tick ...
+    assert!(matches!(r, Some(MessageResult::Reply)));
+    assert!(!out.is_empty());
+    assert!(pc.rotate_counter == 0);
+    // ... and the window still ticked
+    assert!(corev::next_min(pc.core.as_ref().unwrap(), 0) == nonce_val(&seen) + 1);
+    std::mem::forget(pc);
+    witness!();
+}
